@@ -470,7 +470,11 @@ def run_case(ctx, chi, rng, c, label='gen'):
                 parameters=theta, observations=B_model, covariates=cov, dlogp_dpsi=gm)
         ev2 = ctx.model('C13.eval', *(args + [np.asarray(dbottom, float).reshape(c.n_s, -1).tolist(),
                                               np.asarray(dtheta, float).flatten().tolist()]))
-        ctx.agree('C13.grad', g, np.array(ev2[5], float), inp, rtol=1e-7, atol=1e-9)
+        # norm-wise tolerance: entries of an ill-conditioned gradient (kernel filters with two simulated
+        # individuals and small noise reach 1e12) carry the rounding of the largest one
+        gmax = float(np.max(np.abs(np.asarray(ev2[5], float)))) if len(ev2[5]) else 0.0
+        ctx.agree('C13.grad', g, np.array(ev2[5], float), inp, rtol=1e-7,
+                  atol=1e-9 + (1e-9 * gmax if math.isfinite(gmax) else 0.0))
     # ---------------- a second posterior from the SAME argument objects (call sequence)
     post2 = second_posterior(ctx, chi, c, post, inp, x, v, s1, g, ev, n)
     # ---------------- the property on the real code
